@@ -103,6 +103,16 @@ def do_send(X, ins):
             env['msg'] = SV(v, e['elem'])
         for (chname, lab, ast, txt) in c['sends']:
             ev = SpecEval(X.V, X.pkg, env, X.heap, old=X.top_entry_heap())
+            # inside a loop: atHead / freshiter / lold refer to the innermost enclosing loop's current iteration
+            best_ = None
+            for h_, l_ in X.cfg['loops'].items():
+                if X.block in l_['body'] and h_ in getattr(X, 'loopstate', {}) and hasattr(X.loopstate[h_], 'head_heap'):
+                    if best_ is None or len(l_['body']) < len(X.cfg['loops'][best_]['body']):
+                        best_ = h_
+            if best_ is not None:
+                st_ = X.loopstate[best_]
+                ev.head = (st_.head_heap, st_.env_head)
+                ev.loop_old = (st_.entry_heap, st_.env_entry)
             try:
                 tgt = ev.ev(('id', chname)).t
                 X.oblige('send', z3.Implies(ch == tgt, ev.boolean(ast)), ins.get('pos', ''), label='%s.%s' % (chname, lab or '0'), text=txt)
